@@ -480,6 +480,10 @@ class Boss:
     S3_closing.upon(scared, enter=S3_closing, outputs=[])
     S3_closing.upon(close, enter=S3_closing, outputs=[])
     S3_closing.upon(send, enter=S3_closing, outputs=[])
+    # the application may still be entering its code when we close ourselves
+    # (welcome error, server error): ignore the late code and key
+    S3_closing.upon(got_code, enter=S3_closing, outputs=[])
+    S3_closing.upon(got_key, enter=S3_closing, outputs=[])
     S3_closing.upon(closed, enter=S4_closed, outputs=[W_closed, send_status_closed])
     S3_closing.upon(error, enter=S4_closed, outputs=[W_close_with_error, send_status_closed])
 
@@ -492,4 +496,6 @@ class Boss:
     S4_closed.upon(scared, enter=S4_closed, outputs=[])
     S4_closed.upon(close, enter=S4_closed, outputs=[])
     S4_closed.upon(send, enter=S4_closed, outputs=[])
+    S4_closed.upon(got_code, enter=S4_closed, outputs=[])
+    S4_closed.upon(got_key, enter=S4_closed, outputs=[])
     S4_closed.upon(error, enter=S4_closed, outputs=[])
